@@ -1,7 +1,11 @@
 package main
 
 import (
+	"fmt"
+	"os"
+	"go/constant"
 	"go/token"
+	"go/types"
 	"strings"
 
 	"golang.org/x/tools/go/ssa"
@@ -410,4 +414,931 @@ func recentRefsCoverAllRefs(c *Ctx, rule string) {
 			"RecentBranches does not list all of refs/: a recent tag (or other ref) is no longer a recent ref, and prune deletes objects only its commit refers to")
 	}
 	c.AtLeast(rule, "git invocations in RecentBranches", n, 1)
+}
+
+// concatKeepsEveryTuple (C06): (batch).Concat sorts the union of two batches into "ready now" (left) and "later"
+// (right) and must hand back every tuple in one of its two results — also when left is cut down to the batch size.
+// For each return, each of the two accumulating appends of the loop is contained in a result as a whole, or in two
+// complementary slices x[:k] and x[k:].
+func concatKeepsEveryTuple(c *Ctx, rule string) {
+	p := c.P
+	fn := p.Fn("tq", "(batch).Concat")
+	if fn == nil {
+		c.Missing(rule, "(tq.batch).Concat", "not found")
+		return
+	}
+	loops := Loops(fn)
+	var accs []*ssa.Call
+	for _, b := range fn.Blocks {
+		if LoopOf(loops, b) == nil {
+			continue
+		}
+		for _, in := range b.Instrs {
+			if call, ok := in.(*ssa.Call); ok {
+				if bi, isB := call.Call.Value.(*ssa.Builtin); isB && bi.Name() == "append" && short(call.Type().String()) == "tq.batch" {
+					accs = append(accs, call)
+				}
+			}
+		}
+	}
+	c.AtLeast(rule, "accumulating appends in Concat's loop", len(accs), 2)
+	// full(v): values contained in v as a whole; slices: the sub-slices taken on the way
+	var walk func(v ssa.Value, full map[ssa.Value]bool, slices *[]*ssa.Slice, d int)
+	walk = func(v ssa.Value, full map[ssa.Value]bool, slices *[]*ssa.Slice, d int) {
+		if v == nil || full[v] || d > 12 {
+			return
+		}
+		full[v] = true
+		switch x := v.(type) {
+		case *ssa.Phi:
+			for _, e := range x.Edges {
+				walk(e, full, slices, d+1)
+			}
+		case *ssa.Call:
+			if bi, isB := x.Call.Value.(*ssa.Builtin); isB && bi.Name() == "append" {
+				walk(x.Call.Args[0], full, slices, d+1)
+				if len(x.Call.Args) > 1 {
+					walk(x.Call.Args[1], full, slices, d+1)
+				}
+			}
+		case *ssa.ChangeType:
+			walk(x.X, full, slices, d+1)
+		case *ssa.Convert:
+			walk(x.X, full, slices, d+1)
+		case *ssa.Slice:
+			if x.Low == nil && x.High == nil {
+				walk(x.X, full, slices, d+1)
+			} else {
+				*slices = append(*slices, x)
+			}
+		}
+	}
+	n := 0
+	for _, r := range ReturnsOf(fn) {
+		if len(r.Results) < 2 {
+			continue
+		}
+		n++
+		full := map[ssa.Value]bool{}
+		var slices []*ssa.Slice
+		walk(r.Results[0], full, &slices, 0)
+		walk(r.Results[1], full, &slices, 0)
+		for i, a := range accs {
+			covered := full[a]
+			if !covered {
+				// two complementary slices of something that holds the accumulator as a whole
+				for _, s1 := range slices {
+					for _, s2 := range slices {
+						if s1.Low == nil && s1.High != nil && s2.High == nil && s2.Low != nil && s1.High == s2.Low {
+							f1, f2 := map[ssa.Value]bool{}, map[ssa.Value]bool{}
+							var dummy []*ssa.Slice
+							walk(s1.X, f1, &dummy, 0)
+							walk(s2.X, f2, &dummy, 0)
+							if f1[a] && f2[a] {
+								covered = true
+							}
+						}
+					}
+				}
+			}
+			c.Check(covered, rule, "Concat:result-holds-every-tuple:return#"+itoa(n)+":acc#"+itoa(i+1), p.InstrPos(r), "what the loop collected is handed back in full",
+				"(batch).Concat can return without one of the two sets it collected: objects waiting for their retry time are dropped when more than a batch of ready objects is available — they are never sent again and Wait() never returns")
+		}
+	}
+	c.AtLeast(rule, "returns of Concat", n, 2)
+}
+
+// agentReadErrorEndsTheRead (C06): a custom transfer agent that exits or closes its output yields an error (EOF)
+// from the line read. After any non-nil error from that read, readResponse neither reads again nor parses: the
+// parse and any further read are reached only through the error's nil edge.
+func agentReadErrorEndsTheRead(c *Ctx, rule string) {
+	p := c.P
+	fn := p.Fn("tq", "(*customAdapter).readResponse")
+	if fn == nil {
+		c.Missing(rule, "(*tq.customAdapter).readResponse", "not found")
+		return
+	}
+	reads := CallsIn(fn, "(*bufio.Reader).ReadString", "(*bufio.Reader).ReadBytes", "(*bufio.Reader).ReadLine", "(*bufio.Scanner).Scan")
+	n := 0
+	for _, ri := range reads {
+		rd, ok := ri.(*ssa.Call)
+		if !ok {
+			continue
+		}
+		pass := PassEdges(fn, func(cond ssa.Value) (bool, bool) {
+			if e, trueMeansNil, ok := IsErrNilCheck(cond); ok && ResultOfCall(e, rd, 1) {
+				return trueMeansNil, true
+			}
+			return false, false
+		})
+		var sinks []ssa.Instruction
+		for _, ci := range CallsIn(fn, "encoding/json.Unmarshal", "(*encoding/json.Decoder).Decode") {
+			sinks = append(sinks, ci)
+		}
+		for _, r2 := range reads {
+			sinks = append(sinks, r2)
+		}
+		for _, s := range sinks {
+			n++
+			g, where := GuardedFrom(rd, s, pass)
+			c.Check(g && nonVacuous(pass), rule, "custom-agent:read-error-ends-the-read#"+itoa(n), p.InstrPos(s), "after a failed read nothing more is read or parsed",
+				"readResponse goes on after the read of the agent's answer failed ("+where+"): when the agent process dies, EOF is returned for ever, the worker never delivers a result and Wait() never returns")
+		}
+	}
+	c.AtLeast(rule, "reads and parses in readResponse", n, 2)
+}
+
+// GuardedFrom: every path that starts right after instruction `from` and reaches `sink` crosses a pass edge.
+func GuardedFrom(from ssa.Instruction, sink ssa.Instruction, pass []Edge) (bool, string) {
+	cut := EdgeSet(pass)
+	hit := false
+	before := ExploreOverflow
+	ExploreOverflow = false
+	ExploreX(nil, from, nil, nil, cut, nil, func(in ssa.Instruction, st PState) bool {
+		if in == sink {
+			hit = true
+		}
+		return !hit
+	})
+	over := ExploreOverflow
+	ExploreOverflow = before || over
+	if !hit && !over {
+		return true, ""
+	}
+	return false, "after " + from.String()
+}
+
+// notAPointerIsNotAnError (C08): filter-process passes content that is not a pointer through unchanged and tells
+// Git so with status=success. The status sent for a request is computed from the command's error only after the
+// informational not-a-pointer error was cleared: the value given to statusFromErr / delayedStatusFromErr is nil
+// on the edge where errors.IsNotAPointerError held.
+func notAPointerIsNotAnError(c *Ctx, rule string) {
+	p := c.P
+	fn := p.Fn("commands", "filterCommand")
+	if fn == nil {
+		c.Missing(rule, "commands.filterCommand", "not found")
+		return
+	}
+	// the true-successors of `if errors.IsNotAPointerError(e)`
+	cleared := map[*ssa.BasicBlock]ssa.Value{}
+	for _, b := range fn.Blocks {
+		if ifi, ok := lastInstr(b).(*ssa.If); ok {
+			cond, flip := stripNot(ifi.Cond)
+			if cc, _, ok := CallResult(cond); ok && strings.HasSuffix(CalleeName(cc.Common()), "errors.IsNotAPointerError") {
+				k := 0
+				if flip {
+					k = 1
+				}
+				cleared[b.Succs[k]] = cc.Call.Args[0]
+			}
+		}
+	}
+	n := 0
+	for _, ci := range CallsIn(fn, "commands.statusFromErr", "commands.delayedStatusFromErr") {
+		a := ci.Common().Args[0]
+		if IsNilConst(a) {
+			continue
+		}
+		if cc, _, ok := CallResult(a); ok && strings.HasSuffix(CalleeName(cc.Common()), ".Flush") {
+			continue // the flush error, not the command's
+		}
+		n++
+		good := false
+		if ph, ok := a.(*ssa.Phi); ok {
+			for i, e := range ph.Edges {
+				if !IsNilConst(e) || i >= len(ph.Block().Preds) {
+					continue
+				}
+				// the nil comes from a block entered only when the not-a-pointer test held
+				pb := ph.Block().Preds[i]
+				for cb := range cleared {
+					if cb == pb || cb.Dominates(pb) {
+						good = true
+					}
+				}
+			}
+		}
+		c.Check(good, rule, "filter-process:status-after-not-a-pointer-cleared#"+itoa(n), p.InstrPos(ci), "the status is computed from the error after the not-a-pointer case was cleared",
+			"filter-process computes a request's status from the error before the informational not-a-pointer error is cleared: content passed through unchanged is answered with status=error, Git discards it and (with filter.lfs.required) aborts the checkout")
+	}
+	c.AtLeast(rule, "status computations from the command's error", n, 2)
+}
+
+// hostMatchNeedsEqualLabelCount (C10, C11): a `http.<url>.*` / `lfs.<url>.*` / `credential.<url>.*` key applies to
+// a request only if the host names have the same number of labels (a `*` stands for exactly one label, as in Git).
+// compareHosts returns a non-zero score only after the two label counts compared equal.
+func hostMatchNeedsEqualLabelCount(c *Ctx, rule string) {
+	p := c.P
+	fn := p.Fn("config", "compareHosts")
+	if fn == nil {
+		c.Missing(rule, "config.compareHosts", "not found")
+		return
+	}
+	isLen := func(v ssa.Value) bool {
+		call, ok := v.(*ssa.Call)
+		if !ok {
+			return false
+		}
+		bi, isB := call.Call.Value.(*ssa.Builtin)
+		return isB && bi.Name() == "len"
+	}
+	pass := PassEdges(fn, func(cond ssa.Value) (bool, bool) {
+		op, x, y, ok := BinCmp(cond)
+		if !ok || !isLen(x) || !isLen(y) {
+			return false, false
+		}
+		switch op {
+		case token.EQL:
+			return true, true
+		case token.NEQ:
+			return false, true
+		}
+		return false, false
+	})
+	n := 0
+	for _, r := range ReturnsOf(fn) {
+		if k, isK := ConstInt(r.Results[0]); isK && k == 0 {
+			continue
+		}
+		n++
+		g, where := Guarded(fn.Blocks[0], r, pass, nil)
+		c.Check(g && nonVacuous(pass), rule, "compareHosts:match-needs-equal-label-count#"+itoa(n), p.InstrPos(r), "a host matches only a pattern with as many labels",
+			"compareHosts can report a match between host names with different numbers of labels ("+where+"): a key configured for one host (e.g. an http.<url>.extraHeader carrying an Authorization) also applies to every sub-domain of it")
+	}
+	c.AtLeast(rule, "matching returns of compareHosts", n, 1)
+}
+
+// extraHeadersLookedUpPerURL (C10): http.<url>.extraHeader values — which may hold an Authorization — are matched
+// against the full URL of each request (scheme, host, port, path). The maps the client returns are built in the
+// call from that look-up; they are not taken from a table remembered for a host name.
+func extraHeadersLookedUpPerURL(c *Ctx, rule string) {
+	p := c.P
+	n := 0
+	for _, name := range []string{"(*Client).extraHeaders", "(*Client).ExtraHeadersFor"} {
+		fn := p.Fn("lfshttp", name)
+		if fn == nil {
+			c.Missing(rule, "lfshttp."+name, "not found")
+			continue
+		}
+		for _, r := range ReturnsOf(fn) {
+			for _, res := range r.Results {
+				if _, isMap := res.Type().Underlying().(*types.Map); !isMap {
+					continue
+				}
+				n++
+				good := true
+				for _, l := range p.LeavesNoFields(res, func(v ssa.Value) FlowAct {
+					if _, ok := v.(*ssa.Lookup); ok {
+						return Stop
+					}
+					if ex, ok := v.(*ssa.Extract); ok {
+						if _, isL := ex.Tuple.(*ssa.Lookup); isL {
+							return Stop
+						}
+					}
+					return Descend
+				}) {
+					switch x := l.(type) {
+					case *ssa.Lookup:
+						good = false
+					case *ssa.Extract:
+						if _, isL := x.Tuple.(*ssa.Lookup); isL {
+							good = false
+						}
+					}
+				}
+				c.Check(good, rule, "extra-headers:built-per-request:"+FnName(fn)+"#"+itoa(n), p.InstrPos(r), "the headers are built from this request's own look-up",
+					"the extra headers of a request can come out of a table kept between requests: an Authorization configured for https://host is then also attached to a request for http://host (or another port or path) that follows it")
+			}
+		}
+		for _, ci := range CallsIn(fn, "(*config.URLConfig).GetAll", "(*config.URLConfig).Get") {
+			a := CallArgs(ci.Common())
+			if s, ok := ConstString(a[3]); !ok || !strings.EqualFold(s, "extraHeader") {
+				continue
+			}
+			n++
+			cc, _, ok := CallResult(a[2])
+			c.Check(ok && CalleeName(cc.Common()) == "(*net/url.URL).String", rule, "extra-headers:matched-against-full-url", p.InstrPos(ci), "the look-up is given the request's whole URL",
+				"http.<url>.extraHeader is not looked up with the request's full URL (scheme, host, port and path): headers configured for one origin are attached to requests for another")
+		}
+	}
+	c.AtLeast(rule, "extra-header results and look-ups", n, 3)
+}
+
+// priorityZeroIsAValue (C11): Git's configuration wins over .lfsconfig because it is read later and overwrites. For
+// lfs.extension.<name>.priority the overwrite must happen for every valid value, 0 included: the store of
+// Extension.Priority in readGitConfig is reached when the parsed number is 0.
+func priorityZeroIsAValue(c *Ctx, rule string) {
+	p := c.P
+	fn := p.Fn("config", "readGitConfig")
+	if fn == nil {
+		c.Missing(rule, "config.readGitConfig", "not found")
+		return
+	}
+	n := 0
+	for _, b := range fn.Blocks {
+		for _, in := range b.Instrs {
+			st, ok := in.(*ssa.Store)
+			if !ok {
+				continue
+			}
+			fa, ok := st.Addr.(*ssa.FieldAddr)
+			if !ok {
+				continue
+			}
+			if tn, f := fieldAddrName(fa); tn != "config.Extension" || f != "Priority" {
+				continue
+			}
+			n++
+			good, why := true, ""
+			for _, dc := range decidingConds(fn, b) {
+				bo, ok := dc.Cond.(*ssa.BinOp)
+				if !ok {
+					continue
+				}
+				x, y, op := bo.X, bo.Y, bo.Op
+				if _, isK := ConstInt(x); isK {
+					x, y = y, x
+					switch op {
+					case token.LSS:
+						op = token.GTR
+					case token.GTR:
+						op = token.LSS
+					case token.LEQ:
+						op = token.GEQ
+					case token.GEQ:
+						op = token.LEQ
+					}
+				}
+				k, isK := ConstInt(y)
+				if !isK || !SameValue(x, st.Val) {
+					continue
+				}
+				if constant.Compare(constant.MakeInt64(0), op, constant.MakeInt64(k)) != dc.Want {
+					good, why = false, describeCond(dc.Cond)
+				}
+			}
+			c.Check(good, rule, "extension-priority:zero-is-stored#"+itoa(n), p.InstrPos(st), "a priority of 0 overwrites an earlier value like any other",
+				"a priority of 0 is not stored ("+why+"): `lfs.extension.<name>.priority = 0` in Git's own configuration no longer overrides the priority a repository's .lfsconfig gives the same extension")
+		}
+	}
+	c.AtLeast(rule, "stores of Extension.Priority in readGitConfig", n, 1)
+}
+
+// updateJudgesEffectiveValue (C11): `git lfs update` rewrites or removes legacy lfs.<url>.access values in the
+// user's local configuration. The value it judges is the effective one — what Environment.Get returns, i.e. Git's
+// own over .lfsconfig's — not an element of the per-key list of All(), whose first entry is .lfsconfig's.
+func updateJudgesEffectiveValue(c *Ctx, rule string) {
+	p := c.P
+	fn := p.Fn("commands", "updateCommand")
+	if fn == nil {
+		c.Missing(rule, "commands.updateCommand", "not found")
+		return
+	}
+	n := 0
+	for _, b := range fn.Blocks {
+		for _, in := range b.Instrs {
+			bo, ok := in.(*ssa.BinOp)
+			if !ok || (bo.Op != token.EQL && bo.Op != token.NEQ) {
+				continue
+			}
+			var other ssa.Value
+			if s, isC := ConstString(bo.Y); isC && (s == "basic" || s == "private") {
+				other = bo.X
+			} else if s, isC := ConstString(bo.X); isC && (s == "basic" || s == "private") {
+				other = bo.Y
+			}
+			if other == nil {
+				continue
+			}
+			n++
+			fromGet, fromList := false, false
+			for _, l := range p.LeavesNoFields(other, func(v ssa.Value) FlowAct {
+				if _, _, ok := CallResult(v); ok {
+					return Stop
+				}
+				if _, ok := v.(*ssa.Next); ok {
+					return Stop
+				}
+				return Descend
+			}) {
+				if cc, _, ok := CallResult(l); ok {
+					nm := CalleeName(cc.Common())
+					if strings.HasSuffix(nm, ".Get") {
+						fromGet = true
+					} else {
+						fromList = true
+					}
+				} else if _, isC := l.(*ssa.Const); !isC {
+					fromList = true
+				}
+			}
+			c.Check(fromGet && !fromList, rule, "update:judges-effective-access-value#"+itoa(n), p.InstrPos(bo), "the access value examined is the one Environment.Get reports",
+				"`git lfs update` judges an lfs.<url>.access value that is not the effective one (e.g. the first element of All(), which is .lfsconfig's): a repository's .lfsconfig makes it unset or rewrite the key in the user's local Git configuration")
+		}
+	}
+	c.AtLeast(rule, "comparisons of the access value in updateCommand", n, 1)
+}
+
+// exportReplacesEveryPointer (C12): `migrate export` turns every selected pointer into the object's content. Its
+// blob callback hands back the blob it was given only for .gitattributes and for content that did not decode as
+// a pointer; once the pointer decoded, the result is read from the object file (or the export fails).
+func exportReplacesEveryPointer(c *Ctx, rule string) {
+	p := c.P
+	outer := p.Fn("commands", "migrateExportCommand")
+	if outer == nil {
+		c.Missing(rule, "commands.migrateExportCommand", "not found")
+		return
+	}
+	n := 0
+	for _, fn := range outer.AnonFuncs {
+		decs := CallsIn(fn, "lfs.DecodePointer", "lfs.DecodePointerFromBlob")
+		if len(decs) == 0 || len(fn.Params) < 2 {
+			continue
+		}
+		dec, _ := decs[0].(*ssa.Call)
+		var blob *ssa.Parameter
+		for _, prm := range fn.Params {
+			if strings.HasSuffix(prm.Type().String(), "gitobj/v2.Blob") {
+				blob = prm
+			}
+		}
+		if dec == nil || blob == nil {
+			continue
+		}
+		pass := PassEdges(fn, func(cond ssa.Value) (bool, bool) {
+			if e, trueMeansNil, ok := IsErrNilCheck(cond); ok && ResultOfCall(e, dec, 1) {
+				return !trueMeansNil, true
+			}
+			if op, x, y, ok := BinCmp(cond); ok && (op == token.EQL || op == token.NEQ) {
+				for _, s := range []ssa.Value{x, y} {
+					if k, isC := ConstString(s); isC && k == ".gitattributes" {
+						return op == token.EQL, true
+					}
+				}
+			}
+			return false, false
+		})
+		for _, r := range ReturnsOf(fn) {
+			same := false
+			for _, v := range ReturnValues(r, 0) {
+				if Unwrap(v) == ssa.Value(blob) {
+					same = true
+				}
+			}
+			if !same {
+				continue
+			}
+			n++
+			g, where := Guarded(fn.Blocks[0], r, pass, nil)
+			c.Check(g && nonVacuous(pass), rule, "export:blob-kept-only-if-not-a-pointer#"+itoa(n), p.InstrPos(r), "the input blob is kept only for .gitattributes and for non-pointers",
+				"migrate export can keep a blob unchanged although it decoded as a pointer ("+where+"): with the object missing locally the export succeeds, rewrites .gitattributes, and leaves pointer text at a path it reports as exported")
+		}
+	}
+	c.AtLeast(rule, "returns of the input blob in export's blob callback", n, 2)
+}
+
+// revListNameIsRemainder (C13, C03, C05): `git rev-list --objects` prints "<oid> <path>" with the path verbatim.
+// The name the scanner reports is the rest of the line after the object id — a slice of the line open to its
+// end — not one white-space separated field of it.
+func revListNameIsRemainder(c *Ctx, rule string) {
+	p := c.P
+	fn := p.Fn("git", "(*RevListScanner).scan")
+	if fn == nil {
+		c.Missing(rule, "(*git.RevListScanner).scan", "not found")
+		return
+	}
+	n := 0
+	for _, r := range ReturnsOf(fn) {
+		for _, v := range ReturnValues(r, 1) {
+			if _, isC := v.(*ssa.Const); isC {
+				continue
+			}
+			n++
+			good := true
+			var visit func(x ssa.Value, d int)
+			visit = func(x ssa.Value, d int) {
+				switch y := x.(type) {
+				case *ssa.Const:
+				case *ssa.Phi:
+					if d > 4 {
+						good = false
+						return
+					}
+					for _, e := range y.Edges {
+						visit(e, d+1)
+					}
+				case *ssa.Slice:
+					if y.High != nil {
+						good = false
+					}
+				default:
+					good = false
+				}
+			}
+			visit(v, 0)
+			c.Check(good, rule, "rev-list:name-is-rest-of-line#"+itoa(n), p.InstrPos(r), "the object's name is everything after the object id",
+				"the rev-list scanner does not report the rest of the line as the object's name: a path containing white space is cut short, and path filters (lfs.fetchexclude in fsck and prune, include/exclude in fetch) and reports see a different path")
+		}
+	}
+	c.AtLeast(rule, "non-empty names returned by RevListScanner.scan", n, 1)
+}
+
+// delayedPointerRememberedAsDecoded (C14): the pointer remembered for a delayed blob is re-encoded when Git asks for
+// the blob again, and must then smudge to the same content: it is the pointer delayedSmudge decoded, extensions
+// included — not a new one built from some of its fields.
+func delayedPointerRememberedAsDecoded(c *Ctx, rule string) {
+	p := c.P
+	fn := p.Fn("commands", "filterCommand")
+	if fn == nil {
+		c.Missing(rule, "commands.filterCommand", "not found")
+		return
+	}
+	n := 0
+	for _, b := range fn.Blocks {
+		for _, in := range b.Instrs {
+			mu, ok := in.(*ssa.MapUpdate)
+			if !ok || short(mu.Value.Type().String()) != "*lfs.Pointer" {
+				continue
+			}
+			n++
+			good := true
+			for _, l := range p.LeavesNoFields(mu.Value, func(v ssa.Value) FlowAct {
+				if _, _, ok := CallResult(v); ok {
+					return Stop
+				}
+				return Descend
+			}) {
+				cc, _, ok := CallResult(l)
+				if !ok || CalleeName(cc.Common()) != "commands.delayedSmudge" {
+					good = false
+				}
+			}
+			c.Check(good, rule, "delayed:pointer-remembered-as-decoded#"+itoa(n), p.InstrPos(mu), "the remembered pointer is the one delayedSmudge decoded",
+				"the pointer remembered for a delayed blob is not the decoded one (e.g. a copy without its extensions): when Git retrieves the blob the stored object is streamed without the extensions' smudge commands and differs from what the one-shot filter returns")
+		}
+	}
+	c.AtLeast(rule, "pointers remembered in filterCommand", n, 1)
+}
+
+// expiryCountedFromRequestTime (C15): `expires_in` is relative to when the server produced the response; the client
+// cannot know that moment and must not assume a later one. The time stored as an action's creation time is taken
+// before the batch request is sent.
+func expiryCountedFromRequestTime(c *Ctx, rule string) {
+	p := c.P
+	fn := p.Fn("tq", "(*tqClient).Batch")
+	if fn == nil {
+		c.Missing(rule, "(*tq.tqClient).Batch", "not found")
+		return
+	}
+	var sends []ssa.Instruction
+	for _, b := range fn.Blocks {
+		for _, in := range b.Instrs {
+			if call, ok := in.(*ssa.Call); ok {
+				sig := call.Call.Signature()
+				if sig.Results().Len() == 2 && short(sig.Results().At(0).Type().String()) == "*net/http.Response" {
+					sends = append(sends, call)
+				}
+			}
+		}
+	}
+	n := 0
+	for _, b := range fn.Blocks {
+		for _, in := range b.Instrs {
+			st, ok := in.(*ssa.Store)
+			if !ok {
+				continue
+			}
+			fa, ok := st.Addr.(*ssa.FieldAddr)
+			if !ok {
+				continue
+			}
+			if tn, f := fieldAddrName(fa); tn != "tq.Action" || f != "createdAt" {
+				continue
+			}
+			n++
+			good := len(sends) > 0
+			now, _, isCall := CallResult(st.Val)
+			if !isCall || CalleeName(now.Common()) != "time.Now" {
+				good = false
+			} else {
+				for _, s := range sends {
+					if after(s, now) {
+						good = false
+					}
+				}
+			}
+			c.Check(good, rule, "batch:action-lifetime-counted-from-before-the-request#"+itoa(n), p.InstrPos(st), "the basis of expires_in is a time taken before the request was sent",
+				"the time an action's `expires_in` is added to is taken after the batch response arrived: every action is believed valid longer by the latency of the batch call, and an action that already expired is used instead of being requested again")
+		}
+	}
+	c.AtLeast(rule, "stores of Action.createdAt in Batch", n, 1)
+}
+
+// authResendOnlyWithoutAuthorization (C15): the basic adapters send a request again inside DoTransfer — outside the
+// queue's retry accounting — only to let the credential machinery add credentials: the re-send is guarded by "the
+// request carries no Authorization header yet". Any other guard lets a server's 401 answers drive an unbounded,
+// uncounted loop.
+func authResendOnlyWithoutAuthorization(c *Ctx, rule string) {
+	p := c.P
+	n := 0
+	for _, name := range []string{"(*basicDownloadAdapter).makeRequest", "(*basicUploadAdapter).makeRequest"} {
+		fn := p.Fn("tq", name)
+		if fn == nil {
+			c.Missing(rule, "tq."+name, "not found")
+			continue
+		}
+		pass := PassEdges(fn, func(cond ssa.Value) (bool, bool) {
+			op, x, y, ok := BinCmp(cond)
+			if !ok {
+				return false, false
+			}
+			isAuthLen := func(v ssa.Value) bool {
+				call, ok := v.(*ssa.Call)
+				if !ok {
+					return false
+				}
+				if bi, isB := call.Call.Value.(*ssa.Builtin); !isB || bi.Name() != "len" {
+					return false
+				}
+				gc, _, ok := CallResult(call.Call.Args[0])
+				if !ok || CalleeName(gc.Common()) != "(net/http.Header).Get" {
+					return false
+				}
+				s, isC := ConstString(gc.Call.Args[1])
+				return isC && s == "Authorization"
+			}
+			if k, isK := ConstInt(y); isK && k == 0 && isAuthLen(x) {
+				switch op {
+				case token.EQL, token.LEQ:
+					return true, true
+				case token.NEQ, token.GTR:
+					return false, true
+				}
+			}
+			if s, isC := ConstString(y); isC && s == "" {
+				if gc, _, ok := CallResult(x); ok && CalleeName(gc.Common()) == "(net/http.Header).Get" {
+					if a, isA := ConstString(gc.Call.Args[1]); isA && a == "Authorization" {
+						return op == token.EQL, op == token.EQL || op == token.NEQ
+					}
+				}
+			}
+			return false, false
+		})
+		for _, ci := range CallsIn(fn, "(*tq.basicDownloadAdapter).makeRequest", "(*tq.basicUploadAdapter).makeRequest", "(*tq.adapterBase).doHTTP") {
+			if len(CallsIn(fn, CalleeName(ci.Common()))) == 1 && strings.HasSuffix(CalleeName(ci.Common()), ".doHTTP") {
+				continue // the first send
+			}
+			n++
+			g, where := Guarded(fn.Blocks[0], ci, pass, nil)
+			c.Check(g && nonVacuous(pass), rule, "auth-resend:only-without-authorization:"+FnName(fn)+"#"+itoa(n), p.InstrPos(ci), "the request is sent again only while it carries no Authorization",
+				"a basic adapter re-sends a request after an authentication error although it already carries an Authorization header ("+where+"): a storage server answering 401 to the action's own token is asked again and again inside one transfer attempt — not counted, not bounded by lfs.transfer.maxretries, without back-off")
+		}
+	}
+	c.AtLeast(rule, "re-sends after an authentication error", n, 2)
+}
+
+// nameListingsUnquoted (C16, C05): Git C-quotes non-ASCII path names in line-oriented output unless told not to.
+// Every Git invocation in package git that asks for `--name-only` output without -z
+// passes `-c core.quotepath=false`, so that the names handed on are the files' names.
+func nameListingsUnquoted(c *Ctx, rule string) {
+	p := c.P
+	n := 0
+	for _, fn := range p.RepoFuncs(func(path string) bool { return path == PkgPath("git") }) {
+		for _, ci := range CallsIn(fn, gitRunners...) {
+			a := CallArgs(ci.Common())
+			if len(a) == 0 {
+				continue
+			}
+			vecs, ok := ArgVectors(a[len(a)-1])
+			if !ok || len(vecs) == 0 {
+				continue
+			}
+			listing, good := false, true
+			for _, vec := range vecs {
+				has := map[string]bool{}
+				for _, e := range vec {
+					if s, isC := ConstString(e.V); isC && !e.Spread {
+						has[s] = true
+					}
+				}
+				if has["--name-only"] {
+					listing = true
+					if !has["-z"] && !has["core.quotepath=false"] {
+						good = false
+					}
+				}
+			}
+			if !listing {
+				continue
+			}
+			n++
+			c.Check(good, rule, "git:name-listing-unquoted:"+FnName(fn), p.InstrPos(ci), "names are listed with core.quotepath=false (or -z)",
+				"a Git command whose output is read as a list of file names runs with Git's default core.quotepath: a non-ASCII name comes back C-quoted, the file of that name does not exist, and the post-commit/post-checkout hooks silently skip it — a lockable file stays writable")
+		}
+	}
+	c.AtLeast(rule, "name listings in package git", n, 1)
+}
+
+// fieldWrittenOnlyIn: every store to field typ.field in the repository's product code is in one of the named functions.
+func fieldWrittenOnlyIn(c *Ctx, rule, key, typ, field string, owners []string, bad string) {
+	p := c.P
+	n := 0
+	for _, fn := range p.RepoFuncs(productPkg) {
+		for _, f := range WithAnon(fn) {
+			for _, b := range f.Blocks {
+				for _, in := range b.Instrs {
+					st, ok := in.(*ssa.Store)
+					if !ok {
+						continue
+					}
+					fa, ok := st.Addr.(*ssa.FieldAddr)
+					if !ok {
+						continue
+					}
+					if tn, fl := fieldAddrName(fa); tn != typ || fl != field {
+						continue
+					}
+					n++
+					root := f
+					for root.Parent() != nil {
+						root = root.Parent()
+					}
+					c.Check(nameIn(FnName(root), owners), rule, key+":"+FnName(root), p.InstrPos(st), "written by its owner", bad)
+				}
+			}
+		}
+	}
+	c.AtLeast(rule, "stores of "+typ+"."+field, n, 1)
+}
+
+// verifyStateDecidedOnce (C16): whether locks held by others stop a push (lfs.<url>.locksverify) is decided from the
+// configuration when the verifier is built. No answer of the server changes it afterwards: verifyState is written
+// only by newLockVerifier.
+func verifyStateDecidedOnce(c *Ctx, rule string) {
+	fieldWrittenOnlyIn(c, rule, "lock-verifier:state-written-only-at-construction", "commands.lockVerifier", "verifyState", []string{"commands.newLockVerifier"},
+		"the lock verifier's state is changed after construction: a 404/501 answer for one ref of a push turns verification off for the whole push, and files another user holds locks on (reported for the other refs) are uploaded")
+}
+
+// refspecQualifiesTypedNames (C18, C16): Ref.Refspec is the name sent as `ref.name` in batch, lock and verify
+// requests. For every ref whose type has a prefix the result is prefix + "/" + name; the bare name is returned only
+// when Type.Prefix() says there is none — whatever the name looks like.
+func refspecQualifiesTypedNames(c *Ctx, rule string) {
+	p := c.P
+	fn := p.Fn("git", "(*Ref).Refspec")
+	if fn == nil {
+		c.Missing(rule, "(*git.Ref).Refspec", "not found")
+		return
+	}
+	pass := PassEdges(fn, func(cond ssa.Value) (bool, bool) {
+		if cc, idx, ok := CallResult(cond); ok && idx == 1 && CalleeName(cc.Common()) == "(git.RefType).Prefix" {
+			return false, true
+		}
+		return false, false
+	})
+	n := 0
+	for _, r := range ReturnsOf(fn) {
+		for _, v := range ReturnValues(r, 0) {
+			tn, f, _, ok := FieldOf(v)
+			if !ok || tn != "git.Ref" || f != "Name" {
+				continue
+			}
+			n++
+			g, where := Guarded(fn.Blocks[0], r, pass, nil)
+			c.Check(g && nonVacuous(pass), rule, "refspec:bare-name-only-without-prefix#"+itoa(n), p.InstrPos(r), "the bare name is returned only for a ref type without a prefix",
+				"Refspec can return the bare name of a branch or tag ("+where+"): for a ref such as refs/heads/refs/heads/x the requests name refs/heads/x — another ref of the server")
+		}
+	}
+	c.AtLeast(rule, "returns of the bare name in Refspec", n, 1)
+}
+
+// insideWorkTreeNeedsSeparator (C19): track and untrack write ./.gitattributes after making sure the current
+// directory is inside the work tree. changeToWorkingCopy may skip the chdir only when the current directory equals
+// the work tree or continues it with a path separator — a common string prefix is not enough (/x/proj-tools).
+func insideWorkTreeNeedsSeparator(c *Ctx, rule string) {
+	p := c.P
+	fn := p.Fn("commands", "changeToWorkingCopy")
+	if fn == nil {
+		c.Missing(rule, "commands.changeToWorkingCopy", "not found")
+		return
+	}
+	pass := PassEdges(fn, func(cond ssa.Value) (bool, bool) {
+		op, x, y, ok := BinCmp(cond)
+		if !ok || (op != token.EQL && op != token.NEQ) {
+			return false, false
+		}
+		isSep := func(v ssa.Value) bool {
+			v = Unwrap(v)
+			if g, ok := v.(*ssa.Global); ok && g.Name() == "PathSeparator" {
+				return true
+			}
+			if k, isK := ConstInt(v); isK && (k == '/' || k == '\\') {
+				return true
+			}
+			if cv, ok := v.(*ssa.Convert); ok {
+				if k, isK := ConstInt(cv.X); isK && (k == '/' || k == '\\') {
+					return true
+				}
+			}
+			return false
+		}
+		isIdx := func(v ssa.Value) bool { // cwd[len(workingDir)]: Index (or, in older go/ssa, Lookup) on a string
+			switch Unwrap(v).(type) {
+			case *ssa.Index, *ssa.Lookup:
+				return true
+			}
+			return false
+		}
+		xIdx, yIdx := isIdx(x), isIdx(y)
+		if (xIdx && isSep(y)) || (yIdx && isSep(x)) {
+			return op == token.EQL, true
+		}
+		// cwd == workingDir
+		isStr := func(v ssa.Value) bool { return short(v.Type().String()) == "string" }
+		if isStr(x) && isStr(y) {
+			if _, isC := x.(*ssa.Const); !isC {
+				if _, isC := y.(*ssa.Const); !isC {
+					return op == token.EQL, true
+				}
+			}
+		}
+		return false, false
+	})
+	chdirs := CallsIn(fn, "os.Chdir")
+	bad := ""
+	nRet := 0
+	ExploreX(fn.Blocks[0], nil, nil, noReturnCommands, EdgeSet(pass), nil, func(in ssa.Instruction, st PState) bool {
+		for _, cd := range chdirs {
+			if in == cd {
+				return false
+			}
+		}
+		if r, ok := in.(*ssa.Return); ok {
+			nRet++
+			bad = p.InstrPos(r)
+			return false
+		}
+		return true
+	})
+	if os.Getenv("LFSCHECK_DEBUG_R7") != "" {
+		fmt.Fprintln(os.Stderr, "DEBUG work-tree:", bad, nRet, len(pass), len(chdirs))
+	}
+	c.Check(bad == "" && nonVacuous(pass) && len(chdirs) > 0, rule, "work-tree:chdir-skipped-only-inside", p.Pos(fn.Pos()), "the chdir into the work tree is skipped only from inside it",
+		"changeToWorkingCopy can stay in a directory that merely shares a string prefix with the work tree (e.g. /x/proj-tools for /x/proj): track and untrack then write a .gitattributes Git never reads and report success")
+}
+
+// macroExpandsOnlyWhenSet (C19, C13): Git expands an attribute macro only where it is *set* (`macro`), and unsets its
+// members where it is `!macro`; `-macro` and `macro=value` expand nothing. In ProcessLines the macro's attributes
+// are appended as they are only on the edge where the attribute's value is "true".
+func macroExpandsOnlyWhenSet(c *Ctx, rule string) {
+	p := c.P
+	fn := p.Fn("git/gitattr", "(*MacroProcessor).ProcessLines")
+	if fn == nil {
+		c.Missing(rule, "(*gitattr.MacroProcessor).ProcessLines", "not found")
+		return
+	}
+	pass := PassEdges(fn, func(cond ssa.Value) (bool, bool) {
+		op, x, y, ok := BinCmp(cond)
+		if !ok || (op != token.EQL && op != token.NEQ) {
+			return false, false
+		}
+		for _, pr := range [][2]ssa.Value{{x, y}, {y, x}} {
+			if s, isC := ConstString(pr[1]); isC && s == "true" {
+				if _, f, _, isF := FieldOf(pr[0]); isF && f == "V" {
+					return op == token.EQL, true
+				}
+			}
+		}
+		return false, false
+	})
+	n := 0
+	for _, b := range fn.Blocks {
+		for _, in := range b.Instrs {
+			call, ok := in.(*ssa.Call)
+			if !ok {
+				continue
+			}
+			bi, isB := call.Call.Value.(*ssa.Builtin)
+			if !isB || bi.Name() != "append" || len(call.Call.Args) < 2 {
+				continue
+			}
+			// the whole slice looked up in the macro table, spread into the line's attributes
+			src := Unwrap(call.Call.Args[1])
+			if ex, ok := src.(*ssa.Extract); ok {
+				src = ex.Tuple
+			}
+			lk, ok := src.(*ssa.Lookup)
+			if !ok {
+				continue
+			}
+			if _, f, _, isF := FieldOf(lk.X); !isF || f != "macros" {
+				continue
+			}
+			n++
+			g, where := Guarded(fn.Blocks[0], call, pass, nil)
+			c.Check(g && nonVacuous(pass), rule, "macro:expanded-only-when-set#"+itoa(n), p.InstrPos(call), "a macro's attributes are copied only where the macro is set",
+				"a macro is expanded although it is not set on the line ("+where+"): `pattern -lfs` with `[attr]lfs filter=lfs …` is taken for a tracked pattern, `git lfs track` reports it as already supported and Git keeps reporting no LFS filter")
+		}
+	}
+	c.AtLeast(rule, "macro expansions in ProcessLines", n, 1)
 }
